@@ -515,6 +515,8 @@ impl<W: 'static, R: SeedableRng + RngCore + 'static, T: 'static> XSequence<W, R,
                 rt,
             )?));
         };
+        // the result holds k elements: refuse it up front rather than after drawing k indices
+        rt.can_allocate(k.saturating_mul(size_of::<Rc<ManagedXValue<W, R, T>>>()))?;
         // we have two options here, either we copy and entire array and shuffle it up to k (the "pool" method), or we remember which indices we have already picked and re-roll those if we see them(the "pick" method)
         // the pool method is better for large k, but the pick method is better for small k
         let use_pool = {
